@@ -25,7 +25,7 @@ RULE = ("runs of N in {2,4,8,16} (thorough also 24 and 40 > core count) concurre
         ">= 2 simultaneously live intermediates (or >= 2 concurrent readers); distinct by (N, mix, input form, barrier, overlap pattern)")
 REQUIRED = ["concurrent runs", "importer processes", "outputs compared with solitary import", "runs with overlap >= 2",
             "temp paths attributed to exactly one pid", "intermediate files created", "intermediate files removed",
-            "reader processes", "barrier arrivals", "runs with a failing neighbour import"]
+            "reader processes", "barrier arrivals", "runs with a failing neighbour import", "runs with very large inputs"]
 ASSUMPTIONS = [
     "overlap is forced at the one point where gffutils holds an intermediate file (between writing and re-reading it); other "
     "interleavings are left to the scheduler (free-running runs with start offsets are included so the barrier cannot mask a failure)",
@@ -47,6 +47,22 @@ def annotation(seed, fmt, size):
     rng = random.Random(seed)
     genes = G.models(rng, ngenes=size, prefix="s%d" % (seed % 1000))
     return G.gff3(genes, rng) if fmt == "gff3" else G.gtf(genes, rng)
+
+
+def huge_annotation(seed):
+    """A GFF3 whose import has ~2*10^5 second-level relations spread over several top-level features."""
+    rng = random.Random(seed)
+    lines = ["##gff-version 3"]
+    pos = 1
+    for g in range(6):
+        lines.append("chr1\tsrc\tgene\t%d\t%d\t.\t+\t.\tID=hg%d" % (pos, pos + 4000000, g))
+        for t in range(6):
+            lines.append("chr1\tsrc\tmRNA\t%d\t%d\t.\t+\t.\tID=hg%d.t%d;Parent=hg%d" % (pos, pos + 4000000, g, t, g))
+            for e in range(5000):
+                s = pos + 600 * e + rng.randrange(0, 50)
+                lines.append("chr1\tsrc\texon\t%d\t%d\t.\t+\t.\tID=hg%d.t%d.e%d;Parent=hg%d.t%d" % (s, s + 100, g, t, e, g, t))
+        pos += 5000000
+    return "\n".join(lines) + "\n"
 
 
 def spawn(argsfile, tmpdir):
@@ -103,7 +119,7 @@ def imports(ctx, case):
         for i in range(N):
             fmt = case["fmts"][i % len(case["fmts"])]
             seed = case["seeds"][i % len(case["seeds"])]
-            t = annotation(seed, fmt, case["size"])
+            t = huge_annotation(seed) if case.get("huge") else annotation(seed, fmt, case["size"])
             if case.get("flat") and fmt == "gff3":
                 # top-level features only: no second-level relation exists
                 t = "\n".join(l for l in t.splitlines() if l.startswith("##") or "\tgene\t" in l) + "\n"
@@ -144,7 +160,7 @@ def imports(ctx, case):
                   "n": N, "barrier_dir": bdir, "marker": os.path.join(bdir, "failer.done")}
             json.dump(fa, open(os.path.join(outdir, "args_failer.json"), "w"))
             failer = (fa, spawn(os.path.join(outdir, "args_failer.json"), tmpdir))
-        deadline = time.time() + 180
+        deadline = time.time() + (180 if not case.get("huge") else 1800)
         for i, a, p in procs:
             try:
                 p.wait(timeout=max(1, deadline - time.time()))
@@ -390,6 +406,15 @@ def run(ctx):
                     pat = case.pop("_pattern", [])
                     ctx.case((N, mix, variant, pat), ov >= 2, sample={"n": N, "mix": mix, "variant": variant, "max_overlap": ov},
                              cls="variant=%s" % variant)
+    if ctx.shard == 0:
+        # imports large enough to cross internal batching thresholds (~2*10^5 second-level relations each)
+        case = {"kind": "imports", "n": 2, "fmts": ["gff3"], "seeds": [rng.randrange(10 ** 6)], "size": 0, "from_string": False,
+                "barrier": True, "huge": True}
+        execute(ctx, case)
+        ov = case.pop("_overlap", 0)
+        case.pop("_pattern", None)
+        ctx.mon("runs with very large inputs")
+        ctx.case(("huge", 2), ov >= 2, sample={"n": 2, "variant": "huge inputs (180000 exons each)", "max_overlap": ov}, cls="variant=huge")
     for R in ([2, 8, 32] if ctx.tier == "quick" else [2, 8, 32, 48]):
         for fmt in ("gff3", "gtf"):
             i += 1
